@@ -157,7 +157,8 @@ class Axis(GetSetDelAttrMixin, AbstractAxis):
             return values # if collapsed to scalar, just return it
         if type(item) is slice:
             values = values.copy() # own labels: a view would let a relabelling of one axis change the other behind its cached ordering
-        newaxis = Axis(values, self.name, tol=self.tol, **self.attrs)
+        newaxis = Axis(values, self.name, tol=self.tol)
+        newaxis.attrs.update(self.attrs) # metadata only: never read as constructor arguments (dtype, tol, name...)
         # slices keep the ordering
         if self._monotonic and type(item) is slice:
             newaxis._monotonic = self._monotonic
@@ -203,7 +204,9 @@ class Axis(GetSetDelAttrMixin, AbstractAxis):
         subaxis : Axis instance
         """
         values = self._values.take(indices, mode=mode)
-        return Axis(values, self.name, tol=self.tol, **self.attrs)
+        newaxis = Axis(values, self.name, tol=self.tol)
+        newaxis.attrs.update(self.attrs)
+        return newaxis
 
 
     def set(self, values=None, name=None, inplace=True, **kwargs):
